@@ -73,6 +73,17 @@ CHECKS = {
              "the pipeline under the 12 covering option sets and measured by an independent cost table.",
         note="Trusted: vlib.pysym, vlib.cost (context dependent gas at its minimum + non-increasing occurrence counts; "
              "memory expansion not modelled), z3. choose_best_solution is exercised through the pipeline only."),
+    "C15": dict(
+        level="other", design="5/C15", engine="CrossHair on harness/ch_c15.py + native enumeration of multi-item layouts",
+        technique="CrossHair symbolic execution (z3) of the real parser and serialiser with symbolic item kind, numeric fields, "
+                  "PUSH0 switch and digits",
+        text="CrossHair explores all paths of the real build_asm_contract/to_asm_json and plain-text parse/render functions "
+             "for one item of a symbolically chosen kind (20 kinds, optional jumpType/modifierDepth incl. 0, nested .data, "
+             "sourceList) with begin/end/source/modifierDepth unconstrained and the PUSH0 switch symbolic, and of the constant "
+             "parser under three spellings with symbolic digit and leading zeros; each must be 'Confirmed over all paths', a "
+             "reachability twin must be refuted. Sequences of up to 2 (quick) / 3 (thorough) items are enumerated natively.",
+        note="Trusted: CrossHair/z3. Bound: one item per section under CrossHair (two in thorough); longer documents and longer "
+             "numerals are covered by native enumeration or not at all."),
     "C17": dict(
         level="other", design="5/C17", engine="pysym on generate_push_instruction + enumerated finite domains + pipeline",
         technique="symbolic execution (AST -> z3) of the push generator with a symbolic PUSH0 flag and constant; finite "
